@@ -129,6 +129,10 @@ def time_grid(rng, tend, uniform=None, special=None):
     initial time (the whole linspace(t0, T, n) handed over, as the package's own examples do); 'repeat' -- one requested
     time occurs twice; 'int' -- whole-number requested times (handed over as Python ints / an integer array by the caller)
     after a fractional initial time"""
+    if special == "single":
+        # one requested time only (the caller hands it over as a bare number)
+        t0 = rng.choice([0.0, 1.5, -2.25])
+        return np.array([t0, t0 + rng.uniform(0.3, 1.0) * tend])
     if special == "int":
         last = max(3, int(tend))
         ks = sorted(rng.sample(range(1, last + 1), rng.randint(2, min(last, 6))))
@@ -265,7 +269,8 @@ def perform_call(m, entry, method, full_output, include_origin, x0, grid, times_
     full_grid = grid
     if times_as is not None:
         req = {"int-list": lambda g: [int(v) for v in g], "int-array": lambda g: np.array([int(v) for v in g]),
-               "list": lambda g: [float(v) for v in g], "tuple": lambda g: tuple(float(v) for v in g)}[times_as](grid[1:])
+               "list": lambda g: [float(v) for v in g], "tuple": lambda g: tuple(float(v) for v in g),
+               "scalar": lambda g: float(g[0])}[times_as](grid[1:])
 
         class _G:        # grid[0] and grid[1:] as used below
             def __getitem__(self, k):
